@@ -970,6 +970,11 @@ func ruleC06_4(c *Ctx, r *Rep) {
 	}
 	idA := upd.Find("", "id", "eq")
 	okID := len(idA) == 1 && strings.HasSuffix(valKey(idA[0].Arg), "data.DeliveryID")
+	// ... addressed by that id and nothing else: a further guard (still due, not completed) can make the update match no
+	// row without an error — the forwards are committed, the source stays outstanding and is forwarded again
+	if unk, _ := upd.HasUnknownPred(); unk || len(upd.Atoms()) != 1 {
+		okID = false
+	}
 	// the completing update dominates every nil return
 	okDom := true
 	for _, ret := range returnsOf(dl) {
